@@ -857,3 +857,56 @@ Proof.
   destruct (next_fault_sound input fuel r' Hwf Hrok' ltac:(lia) Hcap') as [H|H]; [left; exact H|right].
   rewrite E1, E3 in H. eapply stepf_mono; [exact E4|exact H].
 Qed.
+
+(* ---------- the whole run against its fault-free twin, without any hypothesis ---------- *)
+Lemma run_next_nonempty n fuel r : fst (run_next n fuel r) <> [].
+Proof.
+  destruct n as [|n]; cbn [run_next]; [discriminate|].
+  destruct (next_opt fuel r) as [t r'|r'|e r'|s]; try discriminate.
+  destruct (run_next n fuel r') as [l p]. discriminate.
+Qed.
+
+Lemma readeq_pos r1 r2 : readeq r1 r2 -> reader_position r1 = reader_position r2.
+Proof. intros (Hb & _). unfold reader_position. rewrite Hb. reflexivity. Qed.
+
+(* Any buffer size (including buffers that are too small: BufferFull is preserved), any input,
+   any schedule: the run under faults is the run of the same reader over the schedule with the
+   Fail events removed, or a proper prefix of that run's tokens followed by the I/O error. *)
+Theorem run_lockstep : forall n fuel r1 r2, readeq r1 r2 ->
+  run_next n fuel r1 = run_next n fuel r2
+  \/ exists pre suf p,
+       run_next n fuel r1 = (map OTok pre ++ [OErr E_Io], p) /\
+       fst (run_next n fuel r2) = map OTok pre ++ suf /\ suf <> [].
+Proof.
+  induction n as [|n IH]; intros fuel r1 r2 Heq.
+  - left. cbn [run_next]. rewrite (readeq_pos _ _ Heq). reflexivity.
+  - pose proof (run_next_nonempty (S n) fuel r2) as Hne. cbn [run_next] in *.
+    destruct r1 as [b d1 bom], r2 as [b' d2 bom']. destruct Heq as (Hb & Hbom & Hd). cbn [rbw rbom rrd] in Hb, Hbom, Hd. subst b' bom'.
+    destruct (next_opt_eq fuel b d1 d2 bom Hd) as [[r' Hio]|Hq].
+    + right. rewrite Hio. exists [], (fst (match next_opt fuel (mkreader b d2 bom) with
+        | NTok t r'0 => let '(l, p) := run_next n fuel r'0 in (OTok t :: l, p)
+        | NEnd r'0 => ([OEnd], reader_position r'0)
+        | NErr e r'0 => ([OErr e], reader_position r'0)
+        | NCrash s => ([OCrash s], 0) end)), (reader_position r').
+      split; [reflexivity|]. split; [reflexivity|exact Hne].
+    + destruct (next_opt fuel (mkreader b d1 bom)) as [t1 r1'|r1'|e1 r1'|s1];
+        destruct (next_opt fuel (mkreader b d2 bom)) as [t2 r2'|r2'|e2 r2'|s2]; cbn [nreq] in Hq; try contradiction.
+      * destruct Hq as [-> Hq]. destruct (IH fuel r1' r2' Hq) as [E|(pre & suf & p & E1 & E2 & E3)].
+        -- left. rewrite E. reflexivity.
+        -- right. rewrite E1. destruct (run_next n fuel r2') as [l2 p2]. cbn [fst] in *.
+           exists (t2 :: pre), suf, p. rewrite E2. auto.
+      * left. rewrite (readeq_pos _ _ Hq). reflexivity.
+      * destruct Hq as [-> Hq]. left. rewrite (readeq_pos _ _ Hq). reflexivity.
+      * subst. left. reflexivity.
+Qed.
+
+Corollary stream_lockstep capv sch input :
+  let twin := run_next (length input + 2) (default_fuel input sch) (reader_new capv input (clean sch)) in
+  run_stream capv sch input = twin
+  \/ exists pre suf p,
+       run_stream capv sch input = (map OTok pre ++ [OErr E_Io], p) /\
+       fst twin = map OTok pre ++ suf /\ suf <> [].
+Proof.
+  cbv zeta. unfold run_stream. apply run_lockstep.
+  unfold readeq, reader_new, rdeq. cbn [rbw rrd rbom rest sched delivered]. auto.
+Qed.
